@@ -253,6 +253,12 @@ func newEnv(seed int64, seeds map[string][]seedKV) (*env, error) {
 			}(ne)
 			ne.stop = func() { close(done); n.P.Stop() }
 		}
+		// peers whose radius covers everything (added the way the AddEnr RPC adds them), 5 / 6 / 7 of them: whatever the
+		// node accepts it then gossips to a partly filled target list (nobody listens at their endpoints)
+		for k := 0; k < 5+i; k++ {
+			x := pnode.SignedNode(pnode.NewKey(rng), pnode.Addr4(10, 0, byte(40+i), byte(1+k), 9400).Addr(), 9400+k, 1, pnode.VersionsEntry([]uint8{0, 1}))
+			n.P.AddEnr(x)
+		}
 		// a few genuine items are stored so that FINDCONTENT/OFFER reach the "found" paths
 		for j, s := range ne.seeds {
 			if j%3 == 0 {
